@@ -326,6 +326,7 @@ func runC15(c *Ctx) {
 	}
 
 	c15CacheKeyIdentity(c)
+	rawQueryAfterMutators(c)
 	apqVersionGate(c)
 	getParamFields(c)
 	// a hash-only request must not find a previous request's text in the pooled request object (C07/pool-reset), and an error
